@@ -4,7 +4,7 @@
 
 use crate::haystack::val::{
     Bool, Column, Coord, Date, DateTime, Dict, Grid, List, Marker, Na, Number, Ref, Remove, Str,
-    Symbol, Time, Uri, Value, XStr, GRID_FORMAT_VERSION,
+    Symbol, Time, Uri, Value, XStr,
 };
 use chrono::SecondsFormat;
 use std::fmt::Display;
@@ -288,7 +288,8 @@ impl ZincEncode for Grid {
             writer.write_all(b"<<\n")?;
         }
 
-        writer.write_fmt(format_args!("ver:\"{GRID_FORMAT_VERSION}\""))?;
+        writer.write_all(b"ver:")?;
+        write_quoted_str(writer, &self.ver)?;
 
         // Grid meta
         if let Some(meta) = &self.meta {
